@@ -180,7 +180,7 @@ func genSchedSpec(p *schedParams, c *Corpus, run int, cold bool) *RunSpec {
 				treeN++
 				op.Tree = treeN
 			}
-			if !c15 && op.Kind != "ParseOnly" && rf.Chance(1, 8) {
+			if !c15 && op.Kind != "ParseOnly" && (rf.Chance(1, 8) || p.prop == "C14" && rf.Chance(1, 2)) {
 				op.Fault = genFault(rf, 200)
 			}
 			ops = append(ops, op)
